@@ -4,6 +4,7 @@ import (
 	"encoding/json"
 	"flag"
 	"fmt"
+	"net"
 	"os"
 	"path/filepath"
 	"sort"
@@ -139,3 +140,5 @@ func short(s string, n int) string {
 func lower(s string) string { return strings.ToLower(s) }
 
 func getenv(k string) string { return os.Getenv(k) }
+
+func netParseIP(s string) bool { return net.ParseIP(s) != nil }
